@@ -156,7 +156,7 @@ def check_printer(run):
 
 
 def control_profile(**kw):
-    w = dict(text=3, mark=6, expr=2, callc=1, block=1, py=3, ret=1, brk=2, cont=2, inc=0,
+    w = dict(text=3, mark=6, expr=2, callc=1, block=1, py=3, ret=1, brk=2, cont=2, inc=0, mkit=3, drain=3, itobs=2,
              **{"if": 4, "for": 6, "while": 2, "try": 2, "with": 2})
     base = dict(w=w, ndefs=(1, 2), depth=4, suite=(1, 3), p_empty=0.15, p_rl=0.8, p_loopcond=0.4, p_dec=0.1, flags=[[], [], [], ["buffered"], ["filter"]])
     base.update(kw)
@@ -194,6 +194,36 @@ def loop_in_block_family():
     return progs
 
 
+def iterator_family():
+    """"whatever the iterable": a shared iterator (generator function with a finally, generator expression, iterator
+    object with a recording close()) consumed by a `% for` with / without `loop` in its body that ends by exhaustion,
+    break, continue or an exception caught by an enclosing % try (the raise points), and is then observed: side
+    effects, what a second loop / ''.join() still gets, a nested loop drawing from the same iterator."""
+    progs = []
+    for kind in ("genfn", "genexp", "itobj"):
+        for use_loop in (False, True):
+            for exit_ in ("exhaust", "break", "cont"):
+                for follow in ("drain", "loop2", "nested"):
+                    n = iter(range(1, 1000))
+                    T = lambda: dict(k="text", t="t%d" % next(n))
+                    M = lambda rl=False: dict(k="mark", m=next(n), rl=rl, w="s")
+                    mk = dict(k="mkit", v="g1", kind=kind, toks=["g1a", "g1b", "g1c", "g1d"])
+                    body = [T(), M(use_loop)] + ({"exhaust": [], "break": [dict(k="brk")], "cont": [dict(k="cont"), T()]}[exit_])
+                    if follow == "nested":
+                        inner = dict(k="for", n=0, sized=False, src="g1", a=body, els=[], has_else=False)
+                        loop = dict(k="for", n=0, sized=False, src="g1", a=[T(), M(use_loop), inner, T()], els=[T()], has_else=True)
+                    else:
+                        loop = dict(k="for", n=0, sized=False, src="g1", a=body, els=[T()], has_else=True)
+                    obs = [] if kind == "genexp" else [dict(k="itobs", v="g1", kind=kind)]
+                    after = list(obs)
+                    if follow == "loop2":
+                        after.append(dict(k="for", n=0, sized=False, src="g1", a=[T(), M(True)], els=[], has_else=False))
+                    after += [dict(k="drain", v="g1")] + obs + [M()]
+                    progs.append(dict(defs={}, incs=[], eh=False, fe=False, top=[], el="on",
+                                      body=[mk, M(), dict(k="try", a=[loop], h=[T()])] + after))
+    return progs
+
+
 def sig_loop_block(p, x):
     return "loop-read-in-block-with-own-for-inside-for:%s" % (x["got"]["res"] if x["clause"] == "res" else x["clause"])
 
@@ -226,6 +256,9 @@ def check(run):
     run.extra["programs"] = len(progs)
     for i in range(0, len(progs), 300):
         rc.check_batch(run, progs[i:i + 300], maxraise, "control-%d" % (i // 300), coverage=True)
+    fam = iterator_family()
+    rc.check_batch(run, fam, 8, "iterators", coverage=True)
+    run.extra["iterator_programs"] = len(fam)
     # `return` inside buffered / filtered defs and blocks (finding #21 expected)
     g = rc.Gen(run.rng, control_profile(ret_in_flagged=True, flags=[["buffered"], ["filter"]], w=dict(ret=5, block=3, expr=4), depth=2))
     rc.check_batch(run, [g.gen_prog() for _ in range(30 if not thorough else 200)], 3, "early-return")
